@@ -637,7 +637,7 @@ def gen_cases(rng, tier):
       t.pop('start', None)
     cases.append({'kind': 'test', 'test': t, 'nW': r.choice([1, 2]), 'rseed': r.getrandbits(32),
                   'switch': r.choice([0.1, 0.3, 0.6]), 'logging': i % 2 == 0})
-  for i in range(150 if quick else 3000):
+  for i in range(80 if quick else 3000):
     r = rng.derive('l%d' % i)
     cases.append({'kind': 'live', 'nmeas': r.choice([2, 3]), 'ops': [[r.randrange(3), r.choice([1, 5, 7])] for _ in range(r.choice([2, 3, 4]))],
                   'rseed': r.getrandbits(32), 'pct': r.choice([0, 2, 3, 3]), 'horizon': r.choice([200, 500]),
